@@ -10,7 +10,7 @@ import os, subprocess, tempfile, threading, time, json
 from concurrent.futures import ThreadPoolExecutor
 import vlib
 
-WALL = 40.0          # wall bound of one session (seconds)
+WALL = float(os.environ.get("VERIF_C10_WALL", "40"))          # wall bound of one session (seconds)
 FEN_MID = "r1bq1rk1/pp2bppp/2n1pn2/2pp4/3P1B2/2PBPN2/PP1N1PPP/R2QK2R w KQ - 0 8"
 
 
@@ -253,12 +253,12 @@ class Session:
                 "script": [list(s) for s in self.script]}
 
 
-def accept_logs(ctx, sessions):
+def accept_logs(ctx, sessions, strict=False):
     """Feed every session's event log to the trace acceptor.  Returns list of (session, verdict line or None)."""
     lines, spans = [], []
     for s in sessions:
         a = len(lines)
-        lines.append("proto reset")
+        lines.append("proto reset strict" if strict else "proto reset")
         lines += ["proto ev " + e for e in (s.events or [])]
         lines.append("proto end")
         spans.append((a, len(lines)))
@@ -302,9 +302,9 @@ def run_sessions(sess, par):
     return sess
 
 
-def judge(ctx, sess, tie_name, check_accept=True):
+def judge(ctx, sess, tie_name, check_accept=True, strict=False):
     """Outcome predicate + acceptor verdict for every session."""
-    acc = accept_logs(ctx, sess) if check_accept else [(s, None, 0) for s in sess]
+    acc = accept_logs(ctx, sess, strict) if check_accept else [(s, None, 0) for s in sess]
     nev = 0
     for s, bad, n in acc:
         nev += n
@@ -317,8 +317,9 @@ def judge(ctx, sess, tie_name, check_accept=True):
             ctx.violation(f"{s.name} with Threads {s.threads}: " + "; ".join(probs),
                           dict(s.replay(), kind="uci-outcome", problems=probs, acceptor=bad, output_tail=[l for _, l in s.lines[-8:]], stderr=s.stderr[-600:]))
         elif bad:
+            extra = {"finding_id": "worker-destroy-vs-poll"} if (strict and "exit-not-quiet" in bad) else {}
             ctx.violation(f"{s.name} with Threads {s.threads}: event log is not a run of the protocol model: {bad}",
-                          dict(s.replay(), kind="correspondence", theorem_scope="Props/C10.lean, Props/C09.lean (the code left the modelled protocol)",
+                          dict(s.replay(), **extra, kind="correspondence", theorem_scope="Props/C10.lean, Props/C09.lean (the code left the modelled protocol)",
                                acceptor=bad, events_tail=(s.events or [])[max(0, getattr(s, "reject_index", 0) - 25):getattr(s, "reject_index", 0) + 1]), no_input=True)
     ctx.tie(tie_name, kind="trace acceptor: hook event log of the real binary replayed through Conc.step", sessions=len(sess), events=nev)
     return nev
